@@ -13,6 +13,8 @@
             aff[e]  = <<a, b, ts_some, slope_num, slope_res, icpt_num, icpt_res, med_some, med_num, med_res>>  (affine maps a*v+b)
             big[e]  = <<exp, med_some, med_num, med_res>>   median of x * 2^exp, scaled back (extreme magnitudes, exact scaling)
      ts     x (8..13 points): aff[e] as above plus the Mann-Kendall S as 11th entry
+     mkb    blocks = <<<<size, level, kind>>, ..>> describing a long series, s = reported S, p = <<hi, lo>>; sorted by p
+            (descending) by the check: S exactly, p a decreasing function of the exact (|S|-1)^2 / Var(S)
      split  x, t: r[e] = <<some, p_num, p_res, sup_num, sup_res, swp_num, swp_res, swsup_num, swsup_res,
                            cp_num, cp_res, cs_num, cs_res, p_hi, p_lo>>
      bh     p = <<<<num, den>>, ..>>, q = <<num, den>>, m, panic, keep
@@ -21,7 +23,9 @@
      tmono  Student t p-values on a grid of increasing |t| (ps), of -t (neg), of degenerate inputs (deg)
      ord    kind, x, p: records sorted by the harness-reported p (descending); the judge checks the order against the
             exact statistic (Mann-Kendall: Z2Key, Pettitt: PetKey)                                                *)
-EXTENDS RankStats, TraceLib
+EXTENDS RankStats, TraceLib, Limb
+
+ASSUME LimbLaws
 
 VARIABLE l
 
@@ -146,10 +150,60 @@ OrdOk(prev, r) ==
         /\ QEq(ka, kb) => PNear(prev.p, r.p)
         /\ QLt(ka, kb) => (PLt(r.p, prev.p) /\ ~PNear(prev.p, r.p)) \/ (prev.p = r.p /\ (r.p = One \/ r.p = <<0, 1000>>))
 
+-----------------------------------------------------------------------------
+\* mkb: Mann-Kendall on long series (hundreds to thousands of points) given as blocks <<size, level, kind>>: kind 0 = the
+\* block is constant at its level, 1 = strictly increasing within the block, -1 = strictly decreasing; a block with a higher
+\* level lies entirely above one with a lower level; only constant blocks may share a level (one tie group).
+\* S and 18 Var(S) = n(n-1)(2n+5) - sum t(t-1)(2t+5) follow in closed form; the squared continuity-corrected z is compared
+\* between records by cross-multiplication in Limb arithmetic.
+RECURSIVE SumTo(_, _)
+SumTo(f, n) == IF n = 0 THEN 0 ELSE f[n] + SumTo(f, n - 1)
+BlkS(bl) ==
+    LET k == Len(bl)
+        inner == [j \in 1..k |-> bl[j][3] * ((bl[j][1] * (bl[j][1] - 1)) \div 2)]
+        cross == [j \in 1..k |-> SumTo([i \in 1..(j - 1) |-> bl[i][1] * bl[j][1] * Sgn(bl[j][2] - bl[i][2])], j - 1)]
+    IN SumTo(inner, k) + SumTo(cross, k)
+BlkN(bl) == SumTo([j \in 1..Len(bl) |-> bl[j][1]], Len(bl))
+VarTerm(t) == LMul(LFromInt(t * (t - 1)), LFromInt(2 * t + 5))
+RECURSIVE LSumSeq(_, _)
+LSumSeq(f, n) == IF n = 0 THEN <<>> ELSE LAdd(f[n], LSumSeq(f, n - 1))
+BlkVar18(bl) ==
+    LET k == Len(bl)
+        levels == { bl[j][2] : j \in { i \in 1..k : bl[i][3] = 0 } }
+        \* the tie group of a level is counted at the first constant block of that level
+        first(j) == bl[j][3] = 0 /\ \A i \in 1..(j - 1) : ~(bl[i][3] = 0 /\ bl[i][2] = bl[j][2])
+        size(j) == SumTo([i \in 1..k |-> IF bl[i][3] = 0 /\ bl[i][2] = bl[j][2] THEN bl[i][1] ELSE 0], k)
+        ties == [j \in 1..k |-> IF first(j) THEN VarTerm(size(j)) ELSE <<>>]
+    IN LSub(VarTerm(BlkN(bl)), LSumSeq(ties, k))
+BlkWellFormed(bl) ==
+    \A i, j \in 1..Len(bl) : i # j /\ bl[i][2] = bl[j][2] => bl[i][3] = 0 /\ bl[j][3] = 0
+\* <<q, v>>: z^2 = q / v as Limb numbers; q = <<>> means "no evidence"
+BlkKey(bl) ==
+    LET s == Abs(BlkS(bl))  v == BlkVar18(bl) IN
+    IF BlkN(bl) < 3 \/ v = <<>> \/ s <= 1 THEN <<<<>>, <<1>>>>
+    ELSE <<LMul(LMul(LFromInt(s - 1), LFromInt(s - 1)), <<18>>), v>>
+\* -1: a < b, 0, 1
+KeyCmp(a, b) == LCmp(LMul(a[1], b[2]), LMul(b[1], a[2]))
+\* a * (1 + 1e-6) < b
+KeyClearlyLt(a, b) == LCmp(LMul(LMul(a[1], b[2]), LFromInt(1000001)), LMul(LMul(b[1], a[2]), LFromInt(1000000))) = -1
+MkbOk(prev, r) ==
+    LET kb == BlkKey(r.blocks) IN
+    /\ BlkWellFormed(r.blocks)
+    /\ r.s = BlkS(r.blocks) /\ r.frac = 0
+    /\ InRange(r.p)
+    /\ (kb[1] = <<>>) = (r.p = One)
+    /\ prev.op = "mkb" =>
+        LET ka == BlkKey(prev.blocks) IN
+        /\ PLe(r.p, prev.p)
+        /\ KeyCmp(kb, ka) >= 0
+        /\ KeyCmp(ka, kb) = 0 => PNear(prev.p, r.p)
+        /\ KeyClearlyLt(ka, kb) => (PLt(r.p, prev.p) /\ ~PNear(prev.p, r.p)) \/ (prev.p = r.p /\ r.p = <<0, 1000>>)
+
 Accept(r, prev) ==
     CASE r.op = "seq" -> SeqOk(r)
       [] r.op = "split" -> SplitOk(r)
       [] r.op = "ts" -> TsOk(r)
+      [] r.op = "mkb" -> MkbOk(prev, r)
       [] r.op = "bh" -> BHOk(r)
       [] r.op = "mwempty" -> MWEmptyOk(r)
       [] r.op = "range" -> RangeOk(r)
